@@ -258,6 +258,9 @@ def main():
         return run_check(a.pid, tier, seed, jobs, budget, a.runs)
     except HarnessError as e:
         harness_error(e)
+    except Exception:
+        import traceback
+        harness_error('unexpected exception in the harness:\n' + traceback.format_exc())
 
 
 if __name__ == '__main__':
